@@ -126,6 +126,21 @@ class C15(Prop):
             yield {"k": "live", "seq": seq, "pkg": "py"}
             if t % 3 == 0:
                 yield {"k": "live", "seq": [s for s in seq if "M" not in s[1:3]], "pkg": "torch"}
+        # wider registers (13..66 qubits): polynomials whose strings agree on a long prefix and differ on the last qubits only,
+        # or on the first only (string comparison / de-duplication keys must see every column)
+        for n_ in (13, 16, 30, 66):
+            for t in range(3):
+                base = [self.rng.randrange(4) if t else (1 if q == 0 else 0) for q in range(n_)]
+                var = []
+                for d in range(6):
+                    w = list(base)
+                    w[n_ - 1 - d % 3] = (w[n_ - 1 - d % 3] + 1 + d // 3) % 4
+                    if d == 5:
+                        w = list(base)
+                        w[0] = (w[0] + 2) % 4
+                    var.append(w + [self.rng.randrange(4)])
+                yield {"k": "wpoly", "nn": n_, "a": [[base + [0], 1, 0, 0]] + [[w, self.rng.choice((1, -1, 3)), self.rng.choice((0, 1)), 1] for w in var[:3]],
+                       "b": [[w, self.rng.choice((1, 2, -1)), 0, 0] for w in var[2:]] + [[base + [2], 1, 0, 1]]}
         # arithmetic on stabilizer states = polynomial arithmetic on their density-matrix expansion (itself judged under C19)
         for r in (0, 1, 2):
             for i in sorted(self.pool):
@@ -190,6 +205,31 @@ class C15(Prop):
             return [rec]
         if scn["k"] == "live":
             return self._live(scn, be, n)
+        if scn["k"] == "wpoly":
+            nn = scn["nn"]
+            out = []
+            # (traces only where 2^N times a coefficient still is a machine integer -- and a TLC integer)
+            for op in ("add", "sub", "matmul", "reduce") + (("trace",) if nn <= 16 else ()):
+                rec = {"op": op, "n": nn, "expect_refuse": False}
+                try:
+                    x, y = mk(be, "Q", scn["a"]), mk(be, "Q", scn["b"])
+                    rec["x"] = pv(be, x, nn)
+                    if op in ("add", "sub", "matmul"):
+                        rec["y"] = pv(be, y, nn)
+                        r = (x + y) if op == "add" else (x - y) if op == "sub" else (x @ y)
+                    elif op == "reduce":
+                        r = (x + x).reduce()
+                        rec["x"] = pv(be, x + x, nn)
+                        rec["tol"] = [0, 0]
+                    else:
+                        r = x.trace()
+                    rec["ret"] = pv(be, r, nn)
+                    rec["E"] = maxe(rec["x"]) + (maxe(rec["y"]) if "y" in rec else 0) + maxe(rec["ret"])
+                except Exception as e:
+                    rec["exc"] = _exc(e)
+                    rec.setdefault("E", 8)
+                out.append(rec)
+            return out
         if scn["k"] == "rho":
             typ, terms = self.pool[scn["i"]]
             out = []
